@@ -145,7 +145,7 @@ PROPS["C14"] = dict(
 )
 
 PROPS["C11"] = dict(
-    families=["store", "hist"],
+    families=["store", "hist", "meta"],
     label="partial: framing proved; the columnar document codec is a parameter of the model and is checked differentially",
     level_text="Theorems over the model of Chunk::parse and load_with_options: the output of save is one document chunk and loading "
                "it, strictly or not, is exactly its body's changes applied to the empty document, whatever stays held "
